@@ -95,5 +95,8 @@ impl Emitter {
 }
 
 pub fn silence_panics() {
+    if std::env::var("QVH_PANIC_MSG").is_ok() {
+        return; // debugging aid: keep the default hook
+    }
     std::panic::set_hook(Box::new(|_| {}));
 }
